@@ -266,6 +266,28 @@ def s_shared_upvalue(rng, i):
                 val=f"sa{i}({fnum(rng)})", tag="shared-upvalue")
 
 
+def s_sibling_capture(rng, i):
+    """k sibling closures made in one call capture the same long-lived closure (a global, reached through a local alias or a
+    parameter); every sibling is a plain `let`-bound local that dies with the call, or one of them escapes and is called later.
+    The captured closure must stay alive: every close takes a reference for every captured closure and every drop gives one back."""
+    k = rng.range(1, 4)
+    ops = ["*", "+", "-", "+"]
+    defs = f"fn mklfo{i}(rate:float){{\n let ph = 0.0\n | | {{ ph = ph + rate\n ph }}\n}}\n"
+    glob = f"let lfo{i} = mklfo{i}({fnum(rng)})\n"
+    variant = rng.below(3)
+    sib = lambda m: "".join(f"  let sb{i}_{j} = |y:float| {{ y {ops[j % 4]} {m}() }}\n" for j in range(k))
+    use = " + ".join(f"sb{i}_{j}({fnum(rng)})" for j in range(k))
+    if variant == 0:        # alias in dsp
+        return Snip(defs=defs, glob=glob, body=[f"let m{i} = lfo{i}", sib(f"m{i}").rstrip("\n")], val=f"({use})",
+                    tag="sibling-capture-alias")
+    if variant == 1:        # through a parameter
+        return Snip(defs=defs + f"fn voice{i}(m:()->float, x:float){{\n{sib('m')}  {use} + x\n}}\n", glob=glob,
+                    val=f"voice{i}(lfo{i}, {fnum(rng)})", tag="sibling-capture-param")
+    # one sibling escapes and is called after the frame that made the siblings is gone
+    return Snip(defs=defs + f"fn mkv{i}(m:()->float){{\n{sib('m')}  let keep = |y:float| {{ y + m() }}\n  let t = {use}\n  keep\n}}\n",
+                glob=glob, body=[f"let kv{i} = mkv{i}(lfo{i})"], val=f"(kv{i}({fnum(rng)}) + kv{i}({fnum(rng)}))", tag="sibling-capture-escape")
+
+
 FORWARDS = [
     ("if", lambda x, nil, i: f"if (gate{i}) {x} else {nil}"),
     ("if-else-arm", lambda x, nil, i: f"if (gate{i} - 1.0) {nil} else {x}"),
@@ -335,7 +357,7 @@ SNIPPETS = [s_local_closure, s_local_closure, s_local_counter, s_escape, s_escap
             s_hof_lambda, s_hof_named, s_hof_var, s_compose, s_twice, s_pipe, s_tuple_closure, s_record_closure,
             s_global_closure, s_global_counter, s_global_replicate, s_global_stateful, s_box_list, s_box_list,
             s_box_tree, s_box_option, s_sched_self, s_sched_lambda_dsp, s_sched_metro, s_sched_counter, s_plain,
-            s_shared_upvalue, s_forward, s_forward, s_forward, s_forward, s_forward, s_forward, s_let_result]
+            s_shared_upvalue, s_sibling_capture, s_sibling_capture, s_forward, s_forward, s_forward, s_forward, s_forward, s_forward, s_let_result]
 # snippets that only use objects made during global initialisation: the property must hold with no exception
 STEADY_TAGS = {"global-closure", "box-global", "box-none", "plain", "sched-metro", "sched-letrec", "box-local-single"}
 
